@@ -10,6 +10,7 @@ import (
 	"github.com/olric-data/olric/internal/verif/clustermc"
 	"github.com/olric-data/olric/internal/verif/core"
 	"github.com/olric-data/olric/internal/verif/schedmc"
+	"github.com/olric-data/olric/internal/verif/simnet"
 )
 
 // dbg: run the events of one spec one by one from the initial state, printing progress
@@ -158,6 +159,29 @@ func init() {
 				}
 			}
 		}
+		c.Cov["explanation"] = "debug"
+	}})
+}
+
+// dbgschedreplay: replay a schedmc replay file (DBG_REPLAY) with the network trace.
+func init() {
+	core.Register(&core.Check{ID: "dbgschedreplay", Level: "other", Run: func(c *core.Ctx) {
+		b, _ := os.ReadFile(os.Getenv("DBG_REPLAY"))
+		var f struct {
+			Replay struct {
+				Family  string `json:"family"`
+				Tier    string `json:"tier"`
+				Prog    int    `json:"prog"`
+				Choices []int  `json:"choices"`
+			} `json:"replay"`
+		}
+		json.Unmarshal(b, &f)
+		p := schedmc.Families[f.Replay.Family](f.Replay.Tier)[f.Replay.Prog]
+		k, w, h, _ := schedmc.Replay(p, f.Replay.Choices)
+		for _, l := range simnet.N.Log {
+			fmt.Println("  net:", l)
+		}
+		fmt.Printf("%s\n hist: %s\n verdict: %q %s\n", p.Name, h, k, w)
 		c.Cov["explanation"] = "debug"
 	}})
 }
